@@ -55,9 +55,7 @@ def handleLow (case : Sexp) : Sexp :=
       Sexp.app "raws" (out.instrs.map fun r => .list [Sexp.int r.time, Sexp.nat r.opcode, .atom (Driver.C12.hex r.blob)])]
   | .err c => Sexp.app "err" [.str c]
   | .panic p =>
-    if p == encodedBefore then Sexp.app "panic" [.str "src/llir/lower.rs", .str p]
-    else if p == "assertion `left == right` failed" then Sexp.app "panic" [.str "src/formats/std.rs", .str p]
-    else Sexp.app "panic" [.str "model", .str p]
+    Sexp.app "panic" [.str "model", .str p]
 
 def handle (case : Sexp) : Sexp :=
   match case.head? with
